@@ -118,7 +118,13 @@ void ThreadPool::clear() {
 }
 
 void ThreadPool::stop() {
-    m_isRunning = false;
+    {
+        // m_isRunning is part of the workers' wait predicate: it must change under the queue mutex, otherwise a
+        // worker that has evaluated the predicate but not yet blocked misses the notification and join() hangs
+        std::scoped_lock locker(m_queueMutex);
+        m_isRunning = false;
+    }
+
     m_condition.notify_all();
 
     {
